@@ -118,11 +118,14 @@ class CanvasCache:
 
         # use explicit depends_on if available from the canvas
         depends_on = getattr(canvas, "depends_on", None)
-        if depends_on is None and hasattr(canvas, "children"):
+        if hasattr(canvas, "children"):
+            # the embedded child canvases must be cached whether or not the list of widgets is explicit
             try:
-                depends_on = walk_depends(canvas)
+                walked = walk_depends(canvas)
             except LookupError:
                 return
+            if depends_on is None:
+                depends_on = walked
         if depends_on:
             for w in depends_on:
                 if w not in cls._widgets:
